@@ -30,6 +30,14 @@ pub struct Opts {
     pub arc_self: bool,
     pub client: bool,
     pub server: bool,
+    /// `build_transport(..)`: None = not called (the builder's own default), Some(b) = called with b. Has no
+    /// bearing on paths, names, shapes or types.
+    #[serde(default)]
+    pub transport: Option<bool>,
+    /// false: options that equal the documented defaults (emit_package = true, arc self / default stubs off)
+    /// are left to the builder's `Default`, not set explicitly
+    #[serde(default)]
+    pub explicit: bool,
 }
 
 /// where a message lives: 0 top level of the main file, 1 nested in a wrapper message,
@@ -197,8 +205,15 @@ fn uniq(names: &mut [String], taken: &mut BTreeSet<String>) {
 }
 
 fn opts() -> BoxedStrategy<Opts> {
-    (proptest::bool::weighted(0.7), any::<bool>(), any::<bool>(), prop_oneof![6 => Just((true, true)), 1 => Just((true, false)), 1 => Just((false, true))])
-        .prop_map(|(emit_package, default_stubs, arc_self, (client, server))| Opts { emit_package, default_stubs, arc_self, client, server })
+    (
+        proptest::bool::weighted(0.7),
+        any::<bool>(),
+        any::<bool>(),
+        prop_oneof![6 => Just((true, true)), 1 => Just((true, false)), 1 => Just((false, true))],
+        prop_oneof![2 => Just(None), 1 => Just(Some(true)), 2 => Just(Some(false))],
+        any::<bool>(),
+    )
+        .prop_map(|(emit_package, default_stubs, arc_self, (client, server), transport, explicit)| Opts { emit_package, default_stubs, arc_self, client, server, transport, explicit })
         .boxed()
 }
 
@@ -439,7 +454,16 @@ impl protox::file::FileResolver for MemResolver {
 }
 
 fn tonic_builder(o: &Opts) -> tonic_build::Builder {
-    let b = tonic_build::configure().build_client(o.client).build_server(o.server).use_arc_self(o.arc_self).generate_default_stubs(o.default_stubs);
+    let mut b = tonic_build::configure().build_client(o.client).build_server(o.server);
+    if o.explicit || o.arc_self {
+        b = b.use_arc_self(o.arc_self);
+    }
+    if o.explicit || o.default_stubs {
+        b = b.generate_default_stubs(o.default_stubs);
+    }
+    if let Some(t) = o.transport {
+        b = b.build_transport(t);
+    }
     if o.emit_package {
         b
     } else {
@@ -578,7 +602,18 @@ fn generate_manual(m: &Manual) -> Result<Vec<String>, Failure> {
         }
     } else {
         let mut cg = tonic_build::CodeGenBuilder::new();
-        cg.emit_package(m.opts.emit_package).use_arc_self(m.opts.arc_self).generate_default_stubs(m.opts.default_stubs).build_transport(false);
+        if m.opts.explicit || !m.opts.emit_package {
+            cg.emit_package(m.opts.emit_package);
+        }
+        if m.opts.explicit || m.opts.arc_self {
+            cg.use_arc_self(m.opts.arc_self);
+        }
+        if m.opts.explicit || m.opts.default_stubs {
+            cg.generate_default_stubs(m.opts.default_stubs);
+        }
+        if let Some(t) = m.opts.transport {
+            cg.build_transport(t);
+        }
         let mut out = vec![];
         let own;
         let man;
@@ -1487,7 +1522,7 @@ impl Prop for C11 {
                         dep_pkg: "dep.v1".into(),
                         msgs: msgs.clone(),
                         services: vec![Svc { name: "Greeter".into(), methods: methods.clone() }],
-                        opts: Opts { emit_package: bits & 1 == 0, default_stubs: bits & 2 != 0, arc_self: bits & 4 != 0, client, server },
+                        opts: Opts { emit_package: bits & 1 == 0, default_stubs: bits & 2 != 0, arc_self: bits & 4 != 0, client, server, transport: None, explicit: true },
                     }));
                 }
             }
